@@ -178,7 +178,7 @@ class ForcePlatformsDataBlock(Block):
             ForcePlatformData._build(stream, format, n_frames) for _ in range(n_plats)
         ]
         block = ForcePlatformsDataBlock(start_time, frequency, n_frames)
-        block._plat_map = plat_map
+        block._plat_map = [int(channel) for channel in plat_map]
         block._platforms = platforms
 
         return block
